@@ -33,7 +33,8 @@ def run(repo, rep, tier):
     rep.rule("R-CARRY", "decision table: the printing term, executed exactly on every class of (d, m, s, sign, n_dec, style), never shows 60 in "
                         "minutes/seconds, carries the sign once on the leading non-zero field and reads back to the rounded value mod 360 deg / 24 h")
     printed_forms(repo, rep)
-    delegation(repo, rep)
+    grid_ok = decomp_grid(repo, rep, tier)
+    delegation(repo, rep, grid_ok)
     construct4(repo, rep)
     fam = [(MOD, "Angle." + q) for q in ("deg2dms", "dms2deg", "reduce_dms", "dms_str", "ra_str", "dms_tuple", "ra_tuple")]
     effects.check_functions(repo, rep, fam)
@@ -381,7 +382,84 @@ def strip_red(t):
     return t
 
 
-def delegation(repo, rep):
+def decomp_grid(repo, rep, tier):
+    """R-DECOMP.  dms_tuple() / ra_tuple() are rational recipes in the stored value (reduce, abs, floor, mod, comparisons).  Their
+    extracted terms - deg2dms and reduce_deg by their own terms - are executed exactly on the grid the property names: values at and
+    within 1e-13 .. 1e-9 of a whole second, minute or degree (hour), of 0 and of +-360, of both signs, plus ordinary values.  Decided per
+    value: integer degrees in [0, 360) (hours in [0, 24)), integer minutes in [0, 60), seconds in [0, 60), sign +-1 equal to the sign of
+    the value, and sign * (d + m/60 + s/3600) equal to the value (value/15) to 1e-9 degree."""
+    from ..rules import eval_exact, NotEvaluable, repo_prims
+    rep.rule("R-DECOMP", "dms_tuple() / ra_tuple() give integer degrees in [0, 360) / hours in [0, 24), integer minutes in [0, 60), seconds in [0, 60), the sign of the "
+                         "value, and recombine to the value (1e-9 deg): exact execution on values at and within 1e-13..1e-9 of field boundaries, 0 and +-360")
+    site = "Angle.Angle.dms_tuple/ra_tuple"
+    V = T.sym("NUM_DEG")
+    try:
+        terms = {}
+        for q in ("dms_tuple", "ra_tuple"):
+            terms[q] = ret_term(repo, MOD, "Angle." + q, arg_terms={"self": ("angle", V)})
+        fr = repo.func(MOD, "Angle.reduce_deg")
+        red_t = ret_term(repo, MOD, "Angle.reduce_deg", arg_terms={fr.args.args[0].arg: T.sym("NUM_RED")})
+    except AnalysisError as e:
+        rep.inconcl("R-DECOMP", site, "terms not extractable: %s" % e)
+        return
+    hold = {}
+
+    def red_prim(t, env):
+        if t[0] == "call" and t[1] == "red" and len(t) == 3:
+            return eval_exact(red_t, {T.sym("NUM_RED"): eval_exact(t[2], env, hold["p"]), "$memo": {}}, hold["p"])
+        return None
+    prims = hold["p"] = repo_prims(repo, red_prim)
+    F = Fraction
+    deltas = [F(0), F(1, 10 ** 13), F(1, 2 ** 42), F(1, 10 ** 12), F(1, 10 ** 11), F(1, 10 ** 9)]
+    centres = [F(0), F(1), F(15), F(23), F(180), F(345), F(359), F(360), F(10) + F(12, 60), F(23) + F(59, 60), F(359) + F(59, 60), F(10) + F(59, 60) + F(59, 3600),
+               F(359) + F(59, 60) + F(59, 3600), F(14) + F(59, 60) + F(59, 3600) * 15 / 15, F(1, 15), F(1, 240), F(1, 3600), F(1, 60)]
+    vals = set()
+    for c in centres:
+        for d in deltas:
+            for x in (c - d, c + d):
+                for sg in (1, -1):
+                    if abs(x) < 360:
+                        vals.add(sg * x)
+    vals |= {F("10.2"), F("-23.44694444"), F("0.5"), F("-0.5"), F("123.456789"), F(-1, 10 ** 30), F(1, 10 ** 30)}
+    bad = {}
+    n = 0
+    for v in sorted(vals):
+        for q, turn, scale in (("dms_tuple", 360, 1), ("ra_tuple", 24, 15)):
+            try:
+                r = eval_exact(terms[q], {V: v, "$memo": {}}, prims)
+            except NotEvaluable as e:
+                rep.inconcl("R-DECOMP", site, "%s not executable: %s" % (q, e))
+                return
+            except (TypeError, ValueError, IndexError, KeyError) as e:
+                rep.inconcl("R-DECOMP", site, "%s not executable: %s: %s" % (q, type(e).__name__, e))
+                return
+            n += 1
+            shown = "Angle(%s).%s()" % (repr(float(v)), q)
+            if not (isinstance(r, tuple) and len(r) == 4 and all(isinstance(x, (int, Fraction)) and not isinstance(x, bool) for x in r)):
+                bad.setdefault(q + ":shape", []).append("%s = %r" % (shown, r))
+                continue
+            d_, m_, s_, sg_ = r
+            txt = "%s = (%s, %s, %.12g, %s)" % (shown, d_, m_, float(s_), sg_)
+            if F(d_).denominator != 1 or not 0 <= d_ < turn:
+                bad.setdefault(q + ":leading", []).append("%s: leading field not an integer in [0, %d)" % (txt, turn))
+            elif F(m_).denominator != 1 or not 0 <= m_ < 60:
+                bad.setdefault(q + ":minutes", []).append("%s: minutes not an integer in [0, 60)" % txt)
+            elif not 0 <= s_ < 60:
+                bad.setdefault(q + ":seconds", []).append("%s: seconds outside [0, 60)" % txt)
+            elif sg_ not in (1, -1) or (v != 0 and (sg_ < 0) != (v < 0)):
+                bad.setdefault(q + ":sign", []).append("%s: sign is not that of the value" % txt)
+            elif abs(sg_ * (d_ + F(m_) / 60 + F(s_) / 3600) * scale - v) > F(1, 10 ** 9):
+                bad.setdefault(q + ":recombine", []).append("%s recombines to %.12g, not %.12g" % (txt, float(sg_ * (d_ + F(m_) / 60 + F(s_) / 3600) * scale), float(v)))
+    for kind, lst in sorted(bad.items()):
+        rep.violation("R-DECOMP", site, "decomp:" + kind, lst[0] + "  (%d of %d executed splits fail this way)" % (len(lst), n), obligation=True)
+    if not bad:
+        rep.ok("R-DECOMP", site, "%d splits executed exactly (values at and within 1e-13..1e-9 of whole seconds, minutes, degrees/hours, 0 and +-360): canonical fields, "
+                                 "sign of the value, recombination to 1e-9 deg" % n, obligation=True)
+    rep.floor("sexagesimal splits executed", n, 600)
+    return not bad
+
+
+def delegation(repo, rep, grid_ok=None):
     rep.rule("R-SIB", "delegation to the one decomposition routine; paired bases")
     A = ("angle", T.sym("A"))
     t1 = ret_term(repo, MOD, "Angle.dms_tuple", arg_terms={"self": A})
@@ -391,6 +469,9 @@ def delegation(repo, rep):
     ok2 = t2 == T.call("Angle.Angle.deg2dms", T.mul(T.num(Fraction(1, 15)), T.call("red", T.sym("A"))))
     if ok1 and ok2:
         rep.ok("R-SIB", "Angle.Angle.dms_tuple/ra_tuple", "deg2dms(value) and deg2dms(value/15)")
+    elif grid_ok:
+        # another shape, but the tuples were executed on the boundary grid and are the decomposition (R-DECOMP): nothing to report
+        rep.ok("R-SIB", "Angle.Angle.dms_tuple/ra_tuple", "not literally deg2dms(value) / deg2dms(value/15), but the executed tuples are the decomposition (R-DECOMP)")
     else:
         rep.violation("R-SIB", "Angle.Angle.dms_tuple/ra_tuple", "delegation", "tuples are not deg2dms(value) / deg2dms(value/15): %s ; %s" % (T.show(t1)[:60], T.show(t2)[:60]))
     # deg2dms: reduce first, absolute value, bases 60/60 ; dms2deg: /60, /3600
